@@ -26,8 +26,8 @@ use crate::{
     expression::Expression,
     instruction::{
         CalibrationDefinition, Capture, Delay, Fence, FrameIdentifier, Gate, Instruction,
-        MeasureCalibrationDefinition, Measurement, Pulse, Qubit, RawCapture, SetFrequency,
-        SetPhase, SetScale, ShiftFrequency, ShiftPhase,
+        MeasureCalibrationDefinition, Measurement, Pulse, Qubit, RawCapture, Reset, SetFrequency,
+        SetPhase, SetScale, ShiftFrequency, ShiftPhase, SwapPhases,
     },
 };
 
@@ -261,6 +261,66 @@ impl From<MeasureCalibrationIdentifier> for CalibrationSource {
     }
 }
 
+/// Replace the qubit variables of a calibration body instruction by the qubits they stand for.
+fn substitute_qubit_variables(
+    instruction: &mut Instruction,
+    qubit_expansions: &HashMap<&String, Qubit>,
+) {
+    let substitute = |qubit: &mut Qubit| {
+        if let Qubit::Variable(name) = qubit {
+            if let Some(expansion) = qubit_expansions.get(name) {
+                *qubit = expansion.clone();
+            }
+        }
+    };
+
+    match instruction {
+        Instruction::Gate(Gate { qubits, .. })
+        | Instruction::Delay(Delay { qubits, .. })
+        | Instruction::Capture(Capture {
+            frame: FrameIdentifier { qubits, .. },
+            ..
+        })
+        | Instruction::RawCapture(RawCapture {
+            frame: FrameIdentifier { qubits, .. },
+            ..
+        })
+        | Instruction::SetFrequency(SetFrequency {
+            frame: FrameIdentifier { qubits, .. },
+            ..
+        })
+        | Instruction::SetPhase(SetPhase {
+            frame: FrameIdentifier { qubits, .. },
+            ..
+        })
+        | Instruction::SetScale(SetScale {
+            frame: FrameIdentifier { qubits, .. },
+            ..
+        })
+        | Instruction::ShiftFrequency(ShiftFrequency {
+            frame: FrameIdentifier { qubits, .. },
+            ..
+        })
+        | Instruction::ShiftPhase(ShiftPhase {
+            frame: FrameIdentifier { qubits, .. },
+            ..
+        })
+        | Instruction::Pulse(Pulse {
+            frame: FrameIdentifier { qubits, .. },
+            ..
+        })
+        | Instruction::Fence(Fence { qubits }) => qubits.iter_mut().for_each(substitute),
+        Instruction::SwapPhases(SwapPhases { frame_1, frame_2 }) => frame_1
+            .qubits
+            .iter_mut()
+            .chain(frame_2.qubits.iter_mut())
+            .for_each(substitute),
+        Instruction::Measurement(Measurement { qubit, .. }) => substitute(qubit),
+        Instruction::Reset(Reset { qubit: Some(qubit) }) => substitute(qubit),
+        _ => {}
+    }
+}
+
 impl Calibrations {
     /// Iterate over all [`CalibrationDefinition`]s in the set
     pub fn iter_calibrations(
@@ -356,57 +416,7 @@ impl Calibrations {
                         let mut instructions = calibration.instructions.clone();
 
                         for instruction in instructions.iter_mut() {
-                            match instruction {
-                                Instruction::Gate(Gate { qubits, .. })
-                                | Instruction::Delay(Delay { qubits, .. })
-                                | Instruction::Capture(Capture {
-                                    frame: FrameIdentifier { qubits, .. },
-                                    ..
-                                })
-                                | Instruction::RawCapture(RawCapture {
-                                    frame: FrameIdentifier { qubits, .. },
-                                    ..
-                                })
-                                | Instruction::SetFrequency(SetFrequency {
-                                    frame: FrameIdentifier { qubits, .. },
-                                    ..
-                                })
-                                | Instruction::SetPhase(SetPhase {
-                                    frame: FrameIdentifier { qubits, .. },
-                                    ..
-                                })
-                                | Instruction::SetScale(SetScale {
-                                    frame: FrameIdentifier { qubits, .. },
-                                    ..
-                                })
-                                | Instruction::ShiftFrequency(ShiftFrequency {
-                                    frame: FrameIdentifier { qubits, .. },
-                                    ..
-                                })
-                                | Instruction::ShiftPhase(ShiftPhase {
-                                    frame: FrameIdentifier { qubits, .. },
-                                    ..
-                                })
-                                | Instruction::Pulse(Pulse {
-                                    frame: FrameIdentifier { qubits, .. },
-                                    ..
-                                })
-                                | Instruction::Fence(Fence { qubits }) => {
-                                    // Swap all qubits for their concrete implementations
-                                    for qubit in qubits {
-                                        match qubit {
-                                            Qubit::Variable(name) => {
-                                                if let Some(expansion) = qubit_expansions.get(name)
-                                                {
-                                                    *qubit = expansion.clone();
-                                                }
-                                            }
-                                            Qubit::Fixed(_) | Qubit::Placeholder(_) => {}
-                                        }
-                                    }
-                                }
-                                _ => {}
-                            }
+                            substitute_qubit_variables(instruction, &qubit_expansions);
 
                             instruction.apply_to_expressions(|expr| {
                                 *expr = expr.substitute_variables(&variable_expansions);
